@@ -395,6 +395,13 @@ func (db *SingleBucketBackend) PutObject(
 	}
 
 	if objectDir != "." {
+		// If the object cannot be created after all (a name the filesystem
+		// refuses, no space left), the directories made for it must not stay:
+		defer func() {
+			if err != nil {
+				db.pruneEmptyDirsLocked(objectName)
+			}
+		}()
 		if err := db.fs.MkdirAll(objectDir, 0777); err != nil {
 			return result, err
 		}
@@ -518,10 +525,20 @@ func (db *SingleBucketBackend) deleteObjectLocked(bucketName, objectName string)
 		return err
 	}
 
-	// Directories only exist to hold objects: remove the parents this delete
-	// left empty, otherwise they show up as common prefixes of keys that are gone.
+	db.pruneEmptyDirsLocked(objectName)
+
+	return nil
+}
+
+// Directories only exist to hold objects: pruneEmptyDirsLocked removes the
+// parents of objectName that are empty, otherwise they show up as common
+// prefixes of keys that are gone, or were never stored.
+func (db *SingleBucketBackend) pruneEmptyDirsLocked(objectName string) {
 	for dir := path.Dir(path.Clean(objectName)); dir != "." && dir != "/" && !strings.HasPrefix(dir, ".."); dir = path.Dir(dir) {
 		entries, err := afero.ReadDir(db.fs, filepath.FromSlash(dir))
+		if noSuchFile(err) {
+			continue // never made: its parents may have been
+		}
 		if err != nil || len(entries) > 0 {
 			break
 		}
@@ -529,8 +546,6 @@ func (db *SingleBucketBackend) deleteObjectLocked(bucketName, objectName string)
 			break
 		}
 	}
-
-	return nil
 }
 
 // CreateBucket cannot be implemented by this backend. See MultiBucketBackend if you
